@@ -450,7 +450,25 @@ class Gen:
     # ---------------------------------------------------------------- hazard templates
     def hazard(self):
         r = self.r
-        k = r.randrange(12)
+        k = r.randrange(13)
+        if k == 12:
+            # the callee expression is evaluated before the arguments: an argument that reassigns the function
+            # variable (or changes what the callee expression reads) does not affect the call in progress
+            f, n, p = self.name("st"), self.name("n"), self.name("p")
+            self.declare(f, FUN)
+            self.declare(n, INT)
+            self.funcs.append((f, 1, 1, INT))
+            c1, c2 = r.randint(1, 9), r.randint(10, 99)
+            lam1 = ("lambda", [(p, None)], None, ("bin", "+", ("var", p), ("int", c1)))
+            lam2 = ("lambda", [(p, None)], None, ("bin", "*", ("var", p), ("int", c2)))
+            arg = ("seq", [("assign", f, lam2), ("opassign", n, "+", ("int", 1)), ("int", r.randint(2, 7))])
+            q = self.name("q")
+            callee = ("seq", [("opassign", n, "*", ("int", 10)), ("lambda", [(q, None)], None, ("list", [("var", n), ("var", q)]))])
+            arg2 = ("seq", [("opassign", n, "+", ("int", 3)), ("var", n)])
+            out = [("decl", f, lam1), ("decl", n, ("int", r.randint(1, 4))),
+                   ("print", ("call", ("var", f), [arg])), ("print", ("call", ("var", f), [("int", 1)])),
+                   ("print", ("list", [("call", callee, [arg2]), ("var", n)]))]
+            return out if r.random() < 0.7 else out[:4]
         if k == 10:
             # the try body runs in the enclosing scope: what it declares is visible afterwards
             t, e = self.name("t"), self.name("e")
